@@ -2,3 +2,4 @@ pub mod roundtrip;
 pub mod tamper;
 pub mod binding;
 pub mod nopanic;
+pub mod spec;
